@@ -328,6 +328,10 @@ func truncate(s string, n int) string {
 	return s
 }
 
+// FuzzReport saves the failing case of a native fuzz target in the replay format of the rapid property
+// `part` (the fuzzer's minimisation calls the target again, so the last file written is the minimised case).
+func FuzzReport(part string, c any, err error) { writeFail(part, c, err) }
+
 // ReplayPath is non-empty when the binary is asked to replay one saved case.
 func ReplayPath() string { return os.Getenv("VERIF_REPLAY") }
 
